@@ -23,7 +23,7 @@ impl<'a, 'b> Gen<'a, 'b> {
     /// delayed_reference / delayed_data: terminal_identifier [ [ constant_mintypmax_expression ] ]
     fn delayed_terminal(&mut self) {
         self.var_ref_ident_only();
-        if self.t.chance(1, 3) {
+        if self.t.flip() {
             self.sym("[");
             self.small_const();
             if self.t.chance(1, 3) {
@@ -149,25 +149,25 @@ impl<'a, 'b> Gen<'a, 'b> {
                 self.timing_check_limit();
                 self.sym(",");
                 self.timing_check_limit();
-                if self.notifier_opt() && self.t.flip() {
+                if self.notifier_opt() && self.t.chance(2, 3) {
                     // [ , [ timestamp_condition ] [ , [ timecheck_condition ] [ , [ delayed_reference ] [ , [ delayed_data ] ] ] ] ]
                     self.sym(",");
                     if self.t.flip() {
                         self.var_ref_ident_only();
                     }
-                    if self.t.flip() {
+                    if self.t.chance(3, 4) {
                         self.sym(",");
                         if self.t.flip() {
                             self.var_ref_ident_only();
                         }
-                        if self.t.flip() {
+                        if self.t.chance(3, 4) {
                             self.sym(",");
-                            if self.t.flip() {
+                            if self.t.chance(3, 4) {
                                 self.delayed_terminal();
                             }
-                            if self.t.flip() {
+                            if self.t.chance(3, 4) {
                                 self.sym(",");
-                                if self.t.flip() {
+                                if self.t.chance(3, 4) {
                                     self.delayed_terminal();
                                 }
                             }
